@@ -117,9 +117,17 @@ def judge(case: dict) -> dict:
         # open finding: a module named like a declaration re-exported by name is taken for that re-export and written to its path
         from_stmts = [st_ for v in pkg.get("inits", {}).values() for st_ in v if st_[0] == "from"]
         confusable_files = {(st_[3] or st_[2]).lstrip("_") + ".sdsstub" for st_ in from_stmts if st_[2] in module_names}
+        # open finding: one declaration name re-exported from two different modules (re-exports are matched by name): both
+        # land in the file of one of the re-exports
+        by_decl: dict[str, set] = {}
+        for st_ in from_stmts:
+            by_decl.setdefault(st_[2], set()).add(st_[1])
+        twice_files = {(st_[3] or st_[2]).lstrip("_") + ".sdsstub" for st_ in from_stmts if len(by_decl[st_[2]]) >= 2}
         for path, texts in by_path.items():
             if len(texts) > 1:
                 ctags = [structgen.CONFUSABLE] if PurePosixPath(path).name in confusable_files else []
+                if PurePosixPath(path).name in twice_files:
+                    ctags.append("reexp:same_name_from_two_modules")
                 discs.append(Discrepancy.make("two_texts_one_path", path, f"{len(texts)} different stub texts are written to one path", ctags))
         own = [rel for rel, sf in ss.files.items() if sf.python_module.split(".")[0] == pkg["name"]]
         if len(by_path) != len(own) + len([e for e in ss.errors if e.startswith(pkg["name"])]):
